@@ -188,6 +188,26 @@ def obs_events(chk):
             else:
                 ev.update(len_ok=False, real_nonneg=False, mean_dev=0, pre_dev=0)
             batch.add(ev, {'N': N, 'NW': NW, 'k': k, 'nfft': nfft, 'method': method, 'seed': chk.seed, 'rep': rep, 'recompute': True})
+    # the default number of tapers, for time half-bandwidths that are and are not multiples of 1/2
+    for i, NW in enumerate((2.5, 2.3, 3.4, 1.9, 4, 2.75) if chk.tier == 'quick' else (2.5, 2.3, 3.4, 1.9, 4, 2.75, 1.3, 2.8, 3.3, 4.45, 2.25, 3)):
+        N = (32, 45, 64)[i % 3]
+        cplx = bool(i % 2)
+        x = zoo.signal(rng, N, cplx, 'noise')
+        for method in ('unity', 'eigen', 'adapt'):
+            ev = {'ev': 'defaultk', 'method': method, 'N': N, 'cplx': cplx, 'nw10': int(NW * 10)}
+            ok0, tv = call_guard(dpss, N, NW)
+            ok1, own = call_guard(pmtm, x.copy(), NW=NW, NFFT=N, method=method)
+            ok2, pre = call_guard(lambda: pmtm(x.copy(), e=tv[1], v=tv[0], NFFT=N, method=method))
+            ok3, cls_own = call_guard(lambda: np.array(MultiTapering(x.copy(), NW=NW, NFFT=N, method=method, scale_by_freq=False).psd))
+            ok4, cls_pre = call_guard(lambda: np.array(MultiTapering(x.copy(), e=tv[1], v=tv[0], NFFT=N, method=method, scale_by_freq=False).psd))
+            ev['raised'] = not (ok0 and ok1 and ok2 and ok3 and ok4)
+            if not ev['raised']:
+                ev['same_k'] = bool(np.shape(own[0]) == np.shape(pre[0]) and len(own[2]) == len(tv[1]))
+                ev['pre_dev'] = obs.q(max(zoo.rel_dev(np.asarray(own[0]), np.asarray(pre[0])), zoo.rel_dev(np.asarray(own[1]), np.asarray(pre[1])),
+                                          zoo.rel_dev(cls_own, cls_pre))) if ev['same_k'] and cls_own.shape == cls_pre.shape else obs.QCAP
+            else:
+                ev.update(same_k=False, pre_dev=0)
+            batch.add(ev, {'N': N, 'NW': NW, 'method': method, 'cplx': cplx, 'seed': chk.seed})
     obs.validate(chk, batch, 'obs-slepian', lambda ev, cl: 'C19:OBS:%s:%s:%s:%s' % (ev['ev'], ev['method'], 'complex' if ev['cplx'] else 'real', cl),
                  lambda ev, cl: 'clause "%s" fails: %s' % (cl, ev))
     chk.sample('obs-event', batch.events[0], 1)
@@ -198,6 +218,12 @@ def run(chk):
     obs_events(chk)
     from .. import session
     session.run_for(chk, 'C19')      # Session.tla: results do not depend on earlier calls
+    from .. import quiet
+    quiet.run_for(chk, 'C19')      # Quiet.tla: asking for diagnostics is not an argument
+    from .. import units
+    units.run_for(chk, 'C19')      # Units.tla: the unit the data are expressed in is not part of the data
+    from .. import carrier
+    carrier.run_for(chk, 'C19')      # Carrier.tla: a sample denotes its value whatever container carries it
 
 
 def replay_case(chk, sig, case):
